@@ -14,7 +14,7 @@ EXPLANATION = (
     "Err(KeyParsing)} x cmp(timestamp, now+SHIFT) {Less,Equal,Greater}; SHIFT = 600_000_000 us; validate_empty's table over"
     " bool^2; (R3) signature verification pairs each key with its own signature over the entry's canonical bytes and "
     'propagates every result; (R4) the canonical encoding reads every field; (R5) the verification-skipping Local origin is'
-    ' constructed only in local insert/delete; (R6) a failed validation continues the value loop. (R7) the gossip receive loop evaluated on scripts of broadcast entries: each reaches the replica through exactly one SyncHandle::insert_remote for the loop document, a rejected entry does not end the loop. NOT decided: '
+    ' constructed only in local insert/delete; (R6) a failed validation continues the value loop. (R7) the gossip receive loop evaluated on scripts of broadcast entries: each reaches the replica through exactly one SyncHandle::insert_remote for the loop document, a rejected entry does not end the loop. (R8) the store-actor handlers of InsertRemote / SyncProcessMessage evaluated with each step failing in turn: nothing is counted as applied and the error is what the caller is told when the replica rejected the entry. NOT decided: '
     'unforgeability (ed25519 trusted), clock arithmetic.'
 )
 ASSUMPTIONS = [
@@ -542,6 +542,13 @@ def r7(ctx):
     ctx.floor("C03.R7", 3)
 
 
+def r8(ctx):
+    """"counted as inserted ... only if": the store actor's handlers of remote inserts and reconciliation messages count an
+    entry as applied (metrics) and reply success only after the replica accepted it - nothing is counted when it was rejected"""
+    from . import actorfw
+    actorfw.claim(ctx, "C03.R8", handlers=("InsertRemote", "SyncProcessMessage"), floor=6)
+
+
 def run(ctx):
     ctx.run_rule("C03.R1", r1)
     ctx.run_rule("C03.R2", r2)
@@ -550,3 +557,4 @@ def run(ctx):
     ctx.run_rule("C03.R5", r5)
     ctx.run_rule("C03.R6", r6)
     ctx.run_rule("C03.R7", r7)
+    ctx.run_rule("C03.R8", r8)
